@@ -363,12 +363,18 @@ MSet admForImage(const Recorded &r, int m, uint64_t cut, bool *boundary)
   MSet a = admAtInstant(r, lo, &inCall);
   if (!inCall)
     *boundary = true;
+  MSet latest = a;
   for (size_t j = lo + 1; j <= hi; ++j)
   {
-    a = msIntersect(a, admAtInstant(r, j, &inCall));
+    latest = admAtInstant(r, j, &inCall);
+    a = msIntersect(a, latest);
     if (!inCall)
       *boundary = true;
   }
+  // empty intersection: a flushing call returned without any file operation although the contents changed;
+  // the image cannot reflect it, so judge it against the latest instant
+  if (a.empty())
+    a = latest;
   return a;
 }
 std::string eventShape(const cfs::Event &e)
